@@ -304,6 +304,26 @@ func (r *Run) Oracle() []Finding {
 	return fs
 }
 
+// coversTree: every sub-allocation of s, and recursively of the sub-channel states handed over, comes with a state
+func coversTree(s *channel.State, subs []sl.SignedTx, depth int) bool {
+	if depth > 4 {
+		return true
+	}
+	for _, l := range s.Locked {
+		found := false
+		for _, x := range subs {
+			if x.State != nil && x.State.ID == l.ID {
+				found = coversTree(x.State, subs, depth+1)
+				break
+			}
+		}
+		if !found {
+			return false
+		}
+	}
+	return true
+}
+
 // Registrations by honest clients never carry a state older than what that client had enabled (the client
 // registers under its machine locks); a watcher's registration covers every sub-allocation of the state it
 // registers. (Which published state the watcher picks is not checked per call: it reads the publications
@@ -322,8 +342,8 @@ func (r *Run) checkRegisterVersions(add func(string, string, ...interface{}), pa
 				c := en.Call
 				if c.Tag == fmt.Sprintf("w%d", p) {
 					// every locked sub-channel comes with its state
-					if len(c.Subs) != len(c.Tx.State.Locked) {
-						add("register-subs", "the watcher registered %d sub-channel states for %d sub-allocations", len(c.Subs), len(c.Tx.State.Locked))
+					if !coversTree(c.Tx.State, c.Subs, 0) {
+						add("register-subs", "the watcher registered %d sub-channel states for %d sub-allocations: a locked sub-channel is missing", len(c.Subs), len(c.Tx.State.Locked))
 					}
 				}
 				if c.Tag == fmt.Sprintf("c%d", p) {
@@ -335,8 +355,8 @@ func (r *Run) checkRegisterVersions(add func(string, string, ...interface{}), pa
 							add("register-version", "the client registered sub-channel version %d although it had enabled version %d", s.State.Version, enabled[s.State.ID])
 						}
 					}
-					if len(c.Subs) != len(c.Tx.State.Locked) {
-						add("register-subs", "the client registered %d sub-channel states for %d sub-allocations", len(c.Subs), len(c.Tx.State.Locked))
+					if !coversTree(c.Tx.State, c.Subs, 0) {
+						add("register-subs", "the client registered %d sub-channel states for %d sub-allocations: a locked sub-channel is missing", len(c.Subs), len(c.Tx.State.Locked))
 					}
 				}
 			}
